@@ -664,6 +664,9 @@ fn wm_value(w: Wm, c: &Ctx) -> SeqNo {
 }
 
 fn val_for(k: &K, s: SeqNo, pad: usize) -> Vec<u8> {
+    if pad == 9999 {
+        return vec![]; // the empty value (directed cases only: it cannot identify its version)
+    }
     let mut v = format!("{}@{}", hex(k), s).into_bytes();
     v.extend(std::iter::repeat(b'.').take(pad));
     v
@@ -890,7 +893,7 @@ fn blob_audit(c: &Ctx, tag: &str, fails: &mut Vec<String>, counters: &mut BTreeM
                 match va::resolve_indirection(&v, &blobs_folder, &e.key, &e.val) {
                     Ok(Some(val)) => {
                         let want_prefix = format!("{}@", hex(&e.key)).into_bytes();
-                        if !val.starts_with(&want_prefix) || val.len() as u32 != size {
+                        if (!val.is_empty() && !val.starts_with(&want_prefix)) || val.len() as u32 != size {
                             fails.push(format!("C08 after `{tag}`: pointer of {}@{} in table {} resolves to foreign bytes {:?}", hex(&e.key), e.seqno, t.id(), String::from_utf8_lossy(&val)));
                         }
                     }
